@@ -29,8 +29,28 @@ UNDEF = object()
 class Closure:
     """function defined inside interpreted code (def / lambda)"""
 
-    def __init__(self, interp, node, env_chain, glob, name="<lambda>"):
+    def __init__(self, interp, node, env_chain, glob, name="<lambda>", frame=None):
         self.interp, self.node, self.env_chain, self.glob, self.name = interp, node, env_chain, glob, name
+        # CPython closures are LATE binding (a free variable is looked up when the closure runs); the model captured the environment of the definition.
+        # The two agree as long as no free variable is rebound between definition and call - that is checked at every call (else: Unsupported).
+        self.frame = frame
+        params = {a.arg for a in node.args.posonlyargs + node.args.args + node.args.kwonlyargs} | ({node.args.vararg.arg} if node.args.vararg else set()) | \
+            ({node.args.kwarg.arg} if node.args.kwarg else set())
+        body = node.body if isinstance(node.body, list) else [node.body]
+        loads, stores = set(), set()
+        for b in body:
+            for n in ast.walk(b):
+                if isinstance(n, ast.Name):
+                    (loads if isinstance(n.ctx, ast.Load) else stores).add(n.id)
+        self.free = sorted(n for n in loads - params - stores if env_chain and n in env_chain[0])
+        self.snapshot = {n: env_chain[0][n] for n in self.free}
+
+    def check_late_binding(self):
+        if self.frame is None:
+            return
+        for n in self.free:
+            if self.frame.env.get(n, self) is not self.snapshot[n]:
+                raise Unsupported(f"closure {self.name} reads `{n}`, which was rebound after the closure was created (late binding not modelled)")
 
     def __call__(self, *args, **kwargs):      # native callers (sorted key=..., filter) - only with concrete data
         return self.interp.call_closure(self, list(args), kwargs, True)
@@ -88,6 +108,7 @@ class Interp:
         self.stats = {"stmts": 0, "calls": 0}
         self.fresh = itertools.count()
         self._feas_cache = {}
+        self.cur_g = True                   # path condition of the statement / call being evaluated (consulted by models of stateful values: one-shot iterators)
         self.name_overrides = {}            # {name: object} consulted before module globals and applied to `from x import name` (contract stubs of dependencies)
         self.auto_stub = None               # optional callable(fn, args, kwargs) -> value for repository callees without an explicit contract stub
 
@@ -169,7 +190,11 @@ class Interp:
                 self.call_repo(init, [obj] + args, kwargs, g)
             return obj
         from . import models
-        return models.call_native(self, fn, args, kwargs, g)
+        prev, self.cur_g = self.cur_g, g
+        try:
+            return models.call_native(self, fn, args, kwargs, g)
+        finally:
+            self.cur_g = prev
 
     def bind(self, node: ast.FunctionDef | ast.Lambda, defaults_env, args, kwargs, fname):
         a = node.args
@@ -211,6 +236,7 @@ class Interp:
         return self.run_body(node.body, fr, g)
 
     def call_closure(self, c: Closure, args, kwargs, g):
+        c.check_late_binding()
         tmp = Frame({}, c.glob, c.env_chain)
         env = self.bind(c.node, lambda d: self.eval(d, tmp, True), args, kwargs, c.name)
         fr = Frame(env, c.glob, c.env_chain, fname=c.name)
@@ -282,6 +308,7 @@ class Interp:
         if m is None:
             raise Unsupported(f"statement {type(st).__name__} at line {getattr(st, 'lineno', '?')} of {fr.fname}")
         n_raised = len(self.raised)
+        self.cur_g = g
         try:
             f = m(st, fr, g)
         except (IndexError, KeyError, ZeroDivisionError) as e:
@@ -328,7 +355,7 @@ class Interp:
         return NORMAL
 
     def s_FunctionDef(self, st, fr, g):
-        fr.env[st.name] = Closure(self, st, (fr.env,) + tuple(fr.chain), fr.glob, st.name)
+        fr.env[st.name] = Closure(self, st, (fr.env,) + tuple(fr.chain), fr.glob, st.name, frame=fr)
         return NORMAL
 
     def s_Assign(self, st, fr, g):
@@ -713,7 +740,7 @@ class Interp:
         return "".join(parts)
 
     def e_Lambda(self, node, fr, g):
-        return Closure(self, node, (fr.env,) + tuple(fr.chain), fr.glob)
+        return Closure(self, node, (fr.env,) + tuple(fr.chain), fr.glob, frame=fr)
 
     def e_IfExp(self, node, fr, g):
         c = bexpr(self.eval(node.test, fr, g))
@@ -899,7 +926,7 @@ class Interp:
                 return
             gen = gens[0]
             it = self.eval(gen.iter, fr, X.And(g, slotg))
-            for sg, item in self.iter_values(it, g):
+            for sg, item in self.iter_values(it, X.And(g, slotg)):
                 sg2 = X.And(slotg, sg)
                 if sg2 is False:
                     continue
@@ -924,7 +951,13 @@ class Interp:
     def e_ListComp(self, node, fr, g):
         return GList.guarded(self._comp(node, fr, g, lambda gg: self.eval(node.elt, fr, gg)))
 
-    e_GeneratorExp = e_ListComp
+    def e_GeneratorExp(self, node, fr, g):
+        from . import models
+        prev, self.cur_g = self.cur_g, g
+        try:
+            return models.OneShot(self, [(gd, v) for gd, v in self._comp(node, fr, g, lambda gg: self.eval(node.elt, fr, gg)) if gd is not False], "generator")
+        finally:
+            self.cur_g = prev
 
     def e_Starred(self, node, fr, g):
         raise Unsupported("starred expression")
